@@ -68,6 +68,16 @@ def run(p: Program, rep: Report, tier: str) -> None:
                 if m.name == "__setitem__":
                     writers.append(m.fq)
                     continue
+                # a private helper whose only caller is __setitem__ (an extracted store, the undecorated body of a checking
+                # decorator) is part of __setitem__: the dominance rule below sees it inlined
+                try:
+                    from ..common import owner_of as _own13
+                    own13 = _own13(p, m)
+                except Exception:
+                    own13 = m
+                if own13 is not m and own13.name == "__setitem__" and own13.cls in family:
+                    writers.append(own13.fq)
+                    continue
                 rep.violation("R13.1", construct(m, n), where(m, n),
                               f"{m.fq} writes the header store directly, bypassing the control-character check of __setitem__")
     # nobody outside the Headers family touches the backing dict of a headers object
